@@ -75,7 +75,7 @@ type hSrc03 struct {
 }
 
 // hOracle03 restates the documented rule over the latest version of every source.
-func hOracle03(rules []amcommoncfg.InhibitRule, latest []hSrc03, target model.LabelSet, now time.Time) (bool, []model.Fingerprint, []bool) {
+func hOracle03(rules []amcommoncfg.InhibitRule, sources []model.LabelSet, latest []hSrc03, target model.LabelSet, now time.Time) (bool, []model.Fingerprint, []bool) {
 	muted := false
 	var fps []model.Fingerprint
 	var ok []bool
@@ -84,7 +84,7 @@ func hOracle03(rules []amcommoncfg.InhibitRule, latest []hSrc03, target model.La
 			continue
 		}
 		targetIsSource := labels.Matchers(cr.SourceMatchers).Matches(target)
-		for i, src := range hSources03 {
+		for i, src := range sources {
 			if !latest[i].seen || !labels.Matchers(cr.SourceMatchers).Matches(src) {
 				continue
 			}
@@ -139,17 +139,21 @@ func hHistory03(k int, checkEachStep bool) {
 		// share their equal labels (the full menus run in the thorough tier)
 		nRules, nTargets, nSrc = 1, 1, 2
 	}
-	cfg := hRules03(vfChoice("rules", nRules))
+	hHistoryOn03(k, checkEachStep, hRules03(vfChoice("rules", nRules)), hSources03[:nSrc], hTargets03[:nTargets])
+}
+
+func hHistoryOn03(k int, checkEachStep bool, cfg []amcommoncfg.InhibitRule, sources, targets []model.LabelSet) {
+	nSrc, nTargets := len(sources), len(targets)
 	ih := NewInhibitor(nil, cfg, promslog.NewNopLogger(), eventrecorder.Recorder{})
 	mk := marker.NewAlertMarker()
 	ctx := marker.WithContext(context.Background(), mk)
-	target := hTargets03[vfChoice("target", nTargets)]
-	latest := make([]hSrc03, len(hSources03))
+	target := targets[vfChoice("target", nTargets)]
+	latest := make([]hSrc03, len(sources))
 
 	check := func() {
 		got := ih.Mutes(ctx, target)
 		now := vfNow()
-		want, fps, firing := hOracle03(cfg, latest, target, now)
+		want, fps, firing := hOracle03(cfg, sources, latest, target, now)
 		vfAssert("verdict-equals-existential-rule", got == want)
 		st := mk.Status(target.Fingerprint())
 		if got {
@@ -176,7 +180,7 @@ func hHistory03(k int, checkEachStep bool) {
 		switch op {
 		case 0, 1, 2, 3: // source op fires / is refreshed / resolves
 			a := &types.Alert{}
-			a.Labels = hSources03[op]
+			a.Labels = sources[op]
 			a.StartsAt = now.Add(-time.Minute)
 			a.UpdatedAt = now
 			if vfBool("resolves") {
@@ -198,4 +202,32 @@ func hHistory03(k int, checkEachStep bool) {
 			check()
 		}
 	}
+}
+
+// VerifC03_MixedSources: a rule whose source side is wider than its target side, so
+// that of two sources with the same equal labels one matches both sides (a page) and
+// one only the source side (a critical). A page (itself matching both sides) is
+// inhibited by the critical alone, never by the other page, whichever of the two the
+// rule's lookup index happens to point at: histories of fire / refresh / resolve / GC
+// over the two sources, verdict checked after every step (quick) or only at the end.
+//
+//vf:quick unwind=16 decisions=400 paths=400000
+//vf:thorough unwind=24 decisions=600 paths=4000000
+//vf:expect reach=inhibited reach=not-inhibited
+func VerifC03_MixedSources() {
+	rule := amcommoncfg.InhibitRule{
+		Name:           "wide-source",
+		SourceMatchers: amcommoncfg.Matchers{hMatcher03(labels.MatchRegexp, "severity", "critical|page")},
+		TargetMatchers: amcommoncfg.Matchers{hMatcher03(labels.MatchRegexp, "severity", "warning|page")},
+		Equal:          []string{"cluster"},
+	}
+	sources := []model.LabelSet{
+		{"alertname": "Crit", "severity": "critical", "cluster": "c1"},
+		{"alertname": "Page", "severity": "page", "cluster": "c1"},
+	}
+	targets := []model.LabelSet{
+		{"alertname": "OtherPage", "severity": "page", "cluster": "c1"},
+		{"alertname": "Warn", "severity": "warning", "cluster": "c1"},
+	}
+	hHistoryOn03(3+vfTier(), vfBool("queryEveryStep"), []amcommoncfg.InhibitRule{rule}, sources, targets)
 }
